@@ -121,7 +121,7 @@ def findingIds : List String :=
   ["C17-deprecation-reason-quote", "C17-description-single-line-escapes", "C17-description-block-lossy",
    "C17-tag-url-escapes", "C17-interface-directives-before-implements", "C17-dynamic-interface-implements-dropped",
    "C17-dynamic-input-field-attrs", "C17-extend-with-description", "C17-compose-url-escape",
-   "C17-federation-scalar-any-dropped"]
+   "C17-federation-scalar-any-dropped", "C17-federation-fields-dropped-everywhere"]
 
 def parserFinding : String := "C17-parser-directive-always-repeatable"
 
@@ -135,12 +135,18 @@ def defectsOf (ids : List String) : Defects :=
     dynInputFieldAttrsFromObject := ids.contains "C17-dynamic-input-field-attrs",
     extendKeepsDescription := ids.contains "C17-extend-with-description",
     composeUrlRaw := ids.contains "C17-compose-url-escape",
-    fedScalarAnyDropped := ids.contains "C17-federation-scalar-any-dropped" }
+    fedScalarAnyDropped := ids.contains "C17-federation-scalar-any-dropped",
+    fedFieldsEverywhere := ids.contains "C17-federation-fields-dropped-everywhere" }
 
 /-- all the ways to put `x` into `l` -/
 def insertions {α : Type} (x : α) : List α → List (List α)
   | [] => [[x]]
   | y :: r => (x :: y :: r) :: (insertions x r).map (y :: ·)
+
+/-- all sublists, the whole list first, the empty one last -/
+def subsets {α : Type} : List α → List (List α)
+  | [] => [[]]
+  | x :: r => (subsets r).map (x :: ·) ++ subsets r
 
 def perms {α : Type} : List α → List (List α)
   | [] => [[]]
@@ -158,12 +164,14 @@ def groupOrders (S : Schema) (o : Opts) : List (List (Text × List Text) × List
 
 /-- verdict for one option set: 0 OK, 1 TIE, 2 KNOWN id, 3 VIOL -/
 def judgeOne (known : List String) (k : Kind) (S : Schema) (o : Opts) (implSdl : Text) (crate : Sexp) : Nat × String × String × String :=
-  let mine := findingIds.filter known.contains
-  -- the order of the compose groups: the one under which the model's text is the real text
+  let listed := findingIds.filter known.contains
+  -- the order of the compose groups: the one under which the model's text is the real text; the
+  -- listed findings that are still in the tree: all of them, or (a fix diff applied before its
+  -- finding is flipped to fixed) the largest subset under which the model's text is the real text
   let orders := groupOrders S o
-  let (gm, gs) := ((orders.find? (fun g => implSdl = runG (defectsOf mine) k S o g.1)).orElse
-    (fun _ => orders.find? (fun g => implSdl = runG Defects.none k S o g.1))).getD
-      (composeGroups (allDirectives S), linkGroups (allDirectives S))
+  let cands := if listed.length ≤ 6 then subsets listed else [listed, []]
+  let hit := cands.findSome? (fun ids => (orders.find? (fun g => implSdl = runG (defectsOf ids) k S o g.1)).map (fun g => (ids, g)))
+  let (mine, gm, gs) := hit.getD (listed, composeGroups (allDirectives S), linkGroups (allDirectives S))
   let modelK := runG (defectsOf mine) k S o gm
   let parsed := parseSchema implSdl
   let present := match parsed with
